@@ -1105,7 +1105,7 @@ func msgLine(zone string, keys []*dns.DNSKEY, sigs []*dns.RRSIG, rrs []wireRR, n
 	if len(rrs) > 0 {
 		rr = wiresToken(rrs)
 	}
-	sw, per, hx := msgCols(keys, sigs, rrs, time.Now().Unix())
+	sw, per, hx := msgCols(zone, nAns, keys, sigs, rrs, time.Now().Unix())
 	return fmt.Sprintf("vfy msg z=%s k=%s s=%s rr=%s a=%d o=%s c=%s sw=%s p=%s hx=%s", hexStr(zone), tok(ks), tok(ss), rr, nAns,
 		ownersCol(rrs), canonCol(rrs), sw, per, hx)
 }
